@@ -77,6 +77,38 @@ def build_sfnt(ver, tables, order=None):
     return bytes(out)
 
 
+def build_ttc(ver, members):
+    """A version-1 TTC from [{tag: bytes}]: byte-identical tables are stored once and shared, as the
+    format intends; table checksums are correct, head.checkSumAdjustment is left as found."""
+    n = len(members)
+    pos = 12 + 4 * n
+    dir_offsets = []
+    for tabs in members:
+        dir_offsets.append(pos)
+        pos += 12 + 16 * len(tabs)
+    body = b""
+    where = {}
+    dirs = []
+    for tabs in members:
+        tags = sorted(tabs, key=lambda t: t.encode("latin-1"))
+        nt = len(tags)
+        es = 0
+        while (2 << es) <= nt:
+            es += 1
+        sr = (1 << es) * 16 if nt else 0
+        d = struct.pack(">4sHHHH", ver, nt, sr, es if nt else 0, max(0, nt * 16 - sr))
+        for t in tags:
+            b = tabs[t]
+            key = (t, b)
+            if key not in where:
+                where[key] = pos + len(body)
+                body += b + b"\0" * (-len(b) % 4)
+            cs = checksum(b[:8] + b"\0\0\0\0" + b[12:]) if (t == "head" and len(b) >= 12) else checksum(b)
+            d += struct.pack(">4sLLL", t.encode("latin-1"), cs, where[key], len(b))
+        dirs.append(d)
+    return b"ttcf" + struct.pack(">LL", 0x00010000, n) + struct.pack(">%dL" % n, *dir_offsets) + b"".join(dirs) + body
+
+
 def ttc_offsets(data):
     _need(data, 0, 12)
     tag, ver, n = struct.unpack(">4sLL", data[:12])
